@@ -60,6 +60,18 @@ package reconnect
 //@   after call IsPing: lastIsPing = res0
 //@   after call Transport).Read: lastIsPing = false
 //@   assert call writeOrDone[*github.com/aptpod/iscp-go/transport/reconnect.readRes]: imp(arg1.err == nil, !lastIsPing)
+// The read side survives a lost connection: the loop ends only when the transport itself was closed
+// or cancelled, the peer closed normally, or the redial failed - never because a Read on the old
+// connection failed in any other way (a "connection closed" error is what the parked reader gets
+// when the write loop's redial closes the old connection)
+//@   ghostvar ending bool = false
+//@   after recv ctx.Done: ending = true
+//@   after call Transport).closed: ending = ending || res0
+//@   after call errors.Is: ending = ending || (res0 && arg1 == errors.ErrConnectionNormalClose)
+//@   after call Transport).reconnect: ending = ending || res0 != nil
+//@   after call Transport).Read: ending = false
+//@   ensures[C18] ending
+//@   loop 1 invariant[C18] !ending
 
 // the redial closure made by Dial: same dial config (same transport id), reconnect flag set
 //@ func Dial$1
